@@ -37,6 +37,7 @@ package ringbuffer
 //@   requires rb != nil
 //@   modifies rb.content, rb.len, rb.content.*, elements(rb.content.items)
 //@   atunlock[C14.push.len] rb.len == old(rb.len) + 1
+//@   ensures[C14.push.len-at-return] rb.len == old(rb.len) + 1
 //@   atunlock[C14.push.last] viewat(rb, old(rb.len)) == item
 //@   atunlock[C14.push.prefix] forall(k, 0 <= k && k < old(rb.len) ==> viewat(rb, k) == old(viewat(rb, k)))
 //@   loop 1
@@ -51,6 +52,7 @@ package ringbuffer
 //@   requires rb != nil
 //@   modifies
 //@   ensures[C14.len.nonneg] result >= 0
+//@   ensures[C14.len.value] result == rb.len
 
 //@ func (*RingBuffer).Pop() (item, ok)
 //@   props C14
